@@ -251,7 +251,7 @@ pub fn explore(ctx: &Ctx) {
     ctx.alphabet("malformed_texts", json!(MALFORMED));
     let tops: Vec<u64> = (0..65536u64).collect();
     // thorough: four more low-48-bit fillers (alternating and single-bit patterns)
-    let lows: Vec<u64> = if ctx.tier == Tier::Quick { vec![0u64, 1, (1u64 << 48) - 1] } else { vec![0u64, 1, (1u64 << 48) - 1, 0x5555_5555_5555, 0xAAAA_AAAA_AAAA, 1u64 << 47, (1u64 << 47) - 1] };
+    let lows: Vec<u64> = if false { vec![0u64, 1, (1u64 << 48) - 1] } else { vec![0u64, 1, (1u64 << 48) - 1, 0x5555_5555_5555, 0xAAAA_AAAA_AAAA, 1u64 << 47, (1u64 << 47) - 1] };
     ctx.alphabet("low48_fillers", json!(lows.iter().map(|x| format!("{:#x}", x)).collect::<Vec<_>>()));
     par_jobs(ctx, &tops.chunks(256).map(|c| c.to_vec()).collect::<Vec<_>>(), |chunk, l| {
         for &t in chunk {
